@@ -30,6 +30,7 @@ THEOREMS = [
     "Nix.C19.C19_getters_read_store",
     "Nix.C19.C19_observe_is_stored",
     "Nix.C19.C19_create_stamps_now",
+    "Nix.C19.C19_copy_keeps_source_stamps",
     "Nix.C19.C19_force_roundtrip",
     "Nix.C19.C19_force_refused_unchanged",
     "Nix.C19.C19_force_only_own_stamp",
@@ -70,8 +71,9 @@ ASSUMPTIONS = [
     "fresh and kept handles",
     "creation: the translator reads the statements of create_new / create_* that concern the new entity (super chain, "
     "force calls, setters and methods run on it, anything naming the machinery); conditions are not interpreted (a "
-    "setter under a condition may or may not have run); copies made with copy_from= keep the stamps of their source and "
-    "are not modelled (the oracle runs them: an id-keeping copy as the other value of link attributes)",
+    "setter under a condition may or may not have run); copies made with copy_from= are modelled for the kinds that "
+    "own no entities (arrays, frames, properties: `Op.copy`, the copy carries the stamps of its source); they occur in "
+    "the scene of the value matrix (as the other value of link attributes), not in the random histories",
     "a call on a sub-object is modelled as a call on behalf of an entity: dimension setters / link methods on behalf of "
     "the array that owns the dimension, the label / unit setters of a LINKED dimension (DimensionLink) on behalf of the "
     "linked data object; which object a link points to is not modelled (the harness names it)",
@@ -343,9 +345,6 @@ class Session:
             o = p.create_group(name, typ)
         elif kind == "source":
             o = p.create_source(name, typ)
-        elif kind == "data_array" and "copy_from" in args:
-            # a copy that keeps the id of its source (and its time stamps): oracle histories only, not modelled
-            o = p.create_data_array(name, copy_from=self.fetch(args["copy_from"]))
         elif kind == "data_array":
             kw = {k: self.special(args[k]) for k in ("dtype", "unit", "label") if k in args}
             if "shape" in args:
@@ -385,6 +384,23 @@ class Session:
             self.keep_handle(args["positions"], "multi_tag.positions", o.positions)
         if kind == "feature" and isinstance(args.get("data"), int):
             self.keep_handle(args["data"], "feature.data", o.data)
+
+    def do_copy(self, src, parent, args):
+        """owner.create_<kind>(name, copy_from=<entity src>): the copy keeps the id of its source by default"""
+        p = self.fetch(parent)
+        x = self.fetch(src)
+        kind = self.ents[src]["kind"]
+        kw = {} if args.get("keep_id", True) else {"keep_copy_id": False}
+        if kind == "data_array":
+            o = p.create_data_array(args["name"], copy_from=x, **kw)
+        elif kind == "data_frame":
+            o = p.create_data_frame(args["name"], copy_from=x, **kw)
+        elif kind == "property":
+            o = p.create_property(args["name"], copy_from=x, **kw)
+        else:
+            raise RuntimeError("copies of %s are not modelled" % kind)
+        self.ents.append({"kind": kind, "parent": parent, "alive": True, "name": o.name, "id": o.id})
+        self.keep_handle(len(self.ents) - 1, "returned by create_%s(copy_from=...)" % kind, o)
 
     def do_call(self, e, via, m, inp, args):
         nix = _nix()
@@ -507,6 +523,8 @@ class Session:
                 self.open(op[1], op[2])
             elif name == "create":
                 self.do_create(op[1], op[2], op[3], args)
+            elif name == "copy":
+                self.do_copy(op[1], op[2], args)
             elif name == "call":
                 self.do_call(op[1], op[2], op[3], op[4], args)
             elif name == "force_created":
@@ -1340,16 +1358,18 @@ def scene_ops(clock, auto, copies=False):
             c("feature", 8, data=5, link_type="untagged"), c("feature", 9, data=6, link_type="untagged"),
             c("block", 0, name="b2", type="t"), c("data_array", 15, name="fa", type="t"),
             c("source", 15, name="fo", type="t"), c("tag", 15, name="ft", type="t")] + (
-        # 19: a copy of array 5 that keeps its id (Block.create_data_array(copy_from=...)): another entity which
-        # compares equal to its source (oracle histories only: copies are not modelled)
-        [c("data_array", 1, name="a2 copy", copy_from=5)] if copies else [])
+        # 19 / 20: copies of array 5 and of frame 7 that keep the id (Block.create_data_array(copy_from=...)): other
+        # entities which compare equal to their sources and carry their time stamps; 21: a copy of array 6, new id
+        [["set_clock", clock + 5], ["call", 5, None, "label", "good", {"how": "set", "value": "before the copy"}],
+         ["set_clock", clock + 9], ["copy", 5, 1, {"name": "a2 copy"}], ["copy", 7, 1, {"name": "f1 copy"}],
+         ["copy", 6, 1, {"name": "a3 copy", "keep_id": False}]] if copies else [])
 
 
 # values that differ from the stored one although they compare equal to it (the copy 19 of array 5 has the id of 5):
 # assigning them changes the attribute
 COPY_VALUES = {("multi_tag", "positions"): [(R, 5), (R, 19), (R, 5)],
                ("multi_tag", "extents"): [(R, 5), (R, 19), (R, 5)],
-               ("feature", "data"): [(R, 5), (R, 19), (R, 5)]}
+               ("feature", "data"): [(R, 5), (R, 19), (R, 5), (R, 7), (R, 20), (R, 7), (R, 21)]}
 
 
 SCENE_INDEX = {"block": 1, "section": 2, "data_array": 4, "data_frame": 7, "tag": 8, "multi_tag": 9, "group": 10,
@@ -1425,6 +1445,7 @@ def matrix_histories(rng, dist=None, copies=False):
         # the switch is set at open time or toggled later, by assignment or by re-opening
         auto0 = rng.random() < 0.6
         ops = scene_ops(clock, auto0, copies)
+        clock += 10                        # (the scene with copies advances the clock by 9)
         if not auto0:
             ops.append(rng.choice([["set_auto", True], ["set_auto", True], ["reopen", True]]))
         for phase, values in (("on", seq), ("off", off)):
@@ -1461,6 +1482,9 @@ def shadow_of(ops, rng):
             g.clock, g.auto = op[1], op[2]
         elif op[0] == "create" and op[3] == "good":
             g.ents.append({"kind": op[1], "parent": op[2], "alive": True, "dims": 0, "name": op[4].get("name")})
+        elif op[0] == "copy":
+            g.ents.append({"kind": g.ents[op[1]]["kind"], "parent": op[2], "alive": True, "dims": 0,
+                           "name": op[3].get("name")})
     return g
 
 
@@ -1672,7 +1696,7 @@ def correspondence(ctx):
     # the oracle runs ALL matrix and force histories on the implementation in every tier; the correspondence (model
     # vs implementation) runs a sample of them in the quick tier — the distribution counts what was actually run
     holes = {}
-    mats = matrix_histories(rng, holes)
+    mats = matrix_histories(rng, holes, copies=True)
     if ctx.quick():
         mats = rng.sample(mats, min(len(mats), 12))
     for label, h in mats:
@@ -1713,7 +1737,7 @@ def correspondence(ctx):
             if cm != ci:
                 disagreements.append(Disagreement({"history": h[:k + 1], "at": k, "op": op}, cm, i))
                 break
-            if op[0] in ("call", "force_created", "force_updated", "create", "delete", "reopen"):
+            if op[0] in ("call", "force_created", "force_updated", "create", "copy", "delete", "reopen"):
                 nontrivial.add(core.canon([op[:5], ci.get("res"), len(ci.get("stamps", []))]))
         if n == 1 and len(h) > 20:
             samples.append({"case": h[18], "model": mouts[18]})
@@ -2065,7 +2089,7 @@ def shrink_failure(ctx, f):
     # the removable positions (chunks first, then single operations); the failing operation itself stays
     def removable(h):
         return [i for i in range(1, len(h) - 1)
-                if not (h[i][0] == "open" or (h[i][0] == "create" and h[i][3] == "good"))]
+                if not (h[i][0] in ("open", "copy") or (h[i][0] == "create" and h[i][3] == "good"))]
     best = f
     budget = 70
     rem = removable(ops)
@@ -2153,7 +2177,7 @@ MANIFEST = {
                   "with every class of value incl. clearing ones, refused creations and calls of every kind each "
                   "followed by a probe, dimension and linked-dimension setters, all entities' stamps and the File's "
                   "switch compared after each call on real HDF5 files, read through fresh and kept handles) for the "
-                  "hand-written part of the model; copies (copy_from=) are exercised by the oracle only.",
+                  "hand-written part of the model.",
     "technique": "Lean 4 proof (decide +kernel day table + induction over operation histories + generated "
                  "path-sensitive setter table, getter / creator / factory / File.__init__ shapes and switch-use table, "
                  "interpreted in Lean) with differential correspondence",
